@@ -34,7 +34,8 @@ class Ctx:
         e = extract(self.repo, rel, path)
         e.strip_docs()
         names = e.derives() if derives else []
-        e.inner_attrs()
+        if not keep_attrs:
+            e.inner_attrs()
         for rw in rewrites:
             e.rewrite(*rw) if isinstance(rw, tuple) else e.rewrite(**rw)
         e.make_pub()
